@@ -6,6 +6,7 @@
 #include "../engine/pbt.h"
 #include "wraps.h"
 #include <pthread.h>
+#include <setjmp.h>
 #include <semaphore.h>
 #include "safe_str_lib.h"
 #include "safe_mem_lib.h"
@@ -31,7 +32,7 @@ static int gen_c13(cs_t *cs, void *k, const runcfg_t *cfg) {
         o->kind = (uint8_t)kd;
         o->thread = (uint8_t)cs_range(cs, 0, nthreads - 1);
         o->h = o->kind <= OP_THRD_SET_MEM ? (uint8_t)cs_range(cs, 0, cfg->phase == 0 ? 2 : 4) : 0;
-        if ((o->kind == OP_VIOL_STR || o->kind == OP_VIOL_MEM) && cfg->phase) o->h = (uint8_t)(cs_range(cs, 0, 3) + 4 * (cs_range(cs, 0, 3) == 0 ? cs_range(cs, 1, 2) : 0)); /* bits 2..3: the handler commits a nested violation (same kind / other kind); bits 0..1: which constraint is violated: every report site must dispatch by the function's own kind */
+        if ((o->kind == OP_VIOL_STR || o->kind == OP_VIOL_MEM) && cfg->phase) o->h = (uint8_t)(cs_range(cs, 0, 3) + 4 * (cs_range(cs, 0, 3) == 0 ? cs_range(cs, 1, 3) : 0)); /* bits 2..3: the handler commits a nested violation (1 same kind / 2 other kind) or leaves through longjmp (3); bits 0..1: which constraint is violated: every report site must dispatch by the function's own kind */
         if (o->kind == OP_SPAWN) { if (nthreads < c->maxt) nthreads++; else o->kind = OP_VIOL_STR; }
     }
     return 1;
@@ -43,7 +44,7 @@ static void c13_describe(const void *k, char *buf, size_t n) {
     for (i = 0; i < c->nops && p < (int)n - 64; i++) {
         const hop_t *o = &c->op[i];
         if (o->kind <= OP_THRD_SET_MEM) p += snprintf(buf + p, n - (size_t)p, " T%d.%s(%s%d)", o->thread, opname[o->kind], o->h ? "H" : "NULL", o->h ? o->h : 0);
-        else p += snprintf(buf + p, n - (size_t)p, " T%d.%s%s", o->thread, opname[o->kind], (o->h >> 2) == 1 ? "[handler violates again, same kind]" : (o->h >> 2) == 2 ? "[handler violates again, other kind]" : "");
+        else p += snprintf(buf + p, n - (size_t)p, " T%d.%s%s", o->thread, opname[o->kind], (o->h >> 2) == 1 ? "[handler violates again, same kind]" : (o->h >> 2) == 2 ? "[handler violates again, other kind]" : (o->h >> 2) == 3 ? "[handler leaves through longjmp]" : "");
     }
 }
 
@@ -54,9 +55,14 @@ static __thread int my_tid = -1;
 /* a handler may itself call a bounds-checked function that violates a constraint (a logging handler with a small buffer):
  * that nested violation is a violation detected on this thread like any other */
 static __thread int nest_arm; /* 1: nested string-kind violation, 2: nested memory-kind violation */
+/* ... or may not return at all (abort_handler_s does not; an application handler may longjmp to its recovery point):
+ * violations detected on that thread afterwards are dispatched as before */
+static __thread jmp_buf jump_buf;
+static __thread int jump_arm;
 static void record(int h, errno_t e) {
     if (nrec < 8) { rec[nrec].handler = h; rec[nrec].thread = my_tid; rec[nrec].code = e; }
     nrec++;
+    if (jump_arm) { jump_arm = 0; longjmp(jump_buf, 1); }
     if (nest_arm) {
         int k = nest_arm;
         char s[2] = "a";
@@ -83,6 +89,7 @@ static int handler_index(constraint_handler_t h) {
 typedef struct tctl { pthread_t th; sem_t go, done; volatile int op, h, quit; volatile long ret; volatile int spawn_tid; int alive; } tctl_t;
 static tctl_t T[MAXT];
 static void *thread_main(void *arg);
+#define HANDLER_LEFT (-7777L)
 static void do_op(int tid, int op, int h) {
     tctl_t *t = &T[tid];
     switch (op) {
@@ -92,6 +99,7 @@ static void do_op(int tid, int op, int h) {
     case OP_THRD_SET_MEM: t->ret = (long)thrd_set_mem_constraint_handler_s(HT[h]); break;
     case OP_VIOL_STR: {
         char d[8] = "x", s2[4] = "abc";
+        if ((h >> 2) == 3) { jump_arm = 1; h &= 3; if (setjmp(jump_buf)) { t->ret = HANDLER_LEFT; break; } }
         nest_arm = h >> 2; h &= 3;
         if (h == 1) t->ret = _strcat_s_chk(d, 0, "a", BOS_UNKNOWN);                            /* dmax 0 */
         else if (h == 2) t->ret = _strncpy_s_chk(d, 8, s2, 6, BOS_UNKNOWN, sizeof s2);         /* slen above the known source size */
@@ -101,6 +109,7 @@ static void do_op(int tid, int op, int h) {
     }
     case OP_VIOL_MEM: {
         char s[2] = "a", d[8] = "x", s4[4] = "abc";
+        if ((h >> 2) == 3) { jump_arm = 1; h &= 3; if (setjmp(jump_buf)) { t->ret = HANDLER_LEFT; break; } }
         nest_arm = (h >> 2) ? 3 - (h >> 2) : 0; h &= 3; /* 1: same kind (memory), 2: the other kind */
         if (h == 1) t->ret = _memset_s_chk(d, 4, 1, 9, BOS_UNKNOWN);                           /* n above dmax */
         else if (h == 2) t->ret = _memcpy_s_chk(d, 8, s4, 6, BOS_UNKNOWN, sizeof s4);         /* slen above the known source size */
@@ -118,6 +127,7 @@ static void do_op(int tid, int op, int h) {
     }
     default: break;
     }
+    jump_arm = 0; nest_arm = 0; /* no handler ran: nothing stays armed for a later call */
 }
 static void *thread_main(void *arg) {
     int tid = (int)(long)arg;
@@ -206,7 +216,7 @@ static void exec_c13(const void *k, res_t *r, const runcfg_t *cfg) {
             const char *src = loc[tid][kind] != M_UNSET ? "thread-local" : (glob[kind] != M_UNSET ? "global" : "default");
             touched_mask |= 1u << tid;
             if (regs[kind] >= 2) nviol_after++;
-            if ((o->h >> 2) && nrec >= 1) { /* nested violation committed by the first handler: dispatched like any other */
+            if ((o->h >> 2) && (o->h >> 2) != 3 && nrec >= 1) { /* nested violation committed by the first handler: dispatched like any other */
                 int nk = (o->h >> 2) == 1 ? kind : 1 - kind;
                 int ne = loc[tid][nk] != M_UNSET ? loc[tid][nk] : (glob[nk] != M_UNSET ? glob[nk] : M_DEFAULT);
                 int ne2 = (loc[tid][nk] == M_UNSET && alt[tid][nk] != M_UNSET) ? alt[tid][nk] : ne;
@@ -237,7 +247,7 @@ static void exec_c13(const void *k, res_t *r, const runcfg_t *cfg) {
                 RES_DETAIL(r, "op %d: violation on T%d, handler ran on T%d", i, tid, rec[0].thread);
                 goto done;
             }
-            if (rec[0].code != (int)T[tid].ret) {
+            if (T[tid].ret != HANDLER_LEFT && rec[0].code != (int)T[tid].ret) {
                 RES_VIOL(r, "C13:%s:handler-code-differs", opname[o->kind]);
                 RES_DETAIL(r, "op %d: handler got %d, call returned %ld", i, rec[0].code, T[tid].ret);
                 goto done;
